@@ -246,7 +246,8 @@ def main(argv):
             hits = cover.collect(cover_dir)
             ctx.cov["impl_line_coverage"] = cover.summarise(hits)
             E.write_json(os.path.join(E.BUILD, "cover", "%s.json" % prop),
-                         {m: (sorted(v) if isinstance(v, set) else {str(k): x for k, x in v.items()}) for m, v in hits.items()})
+                         {m: (sorted(v) if isinstance(v, set) else [[*k, sorted(x)] for k, x in v.items()] if m == "#branches" else {str(k): x for k, x in v.items()})
+                          for m, v in hits.items()})
         except Exception as e:      # coverage is evidence about reach, never a verdict
             ctx.cov["impl_line_coverage"] = {"error": "%s: %s" % (type(e).__name__, e)}
     ctx.write_evidence()
